@@ -365,14 +365,6 @@ def sse2W (block : Bytes) : Option (List UInt32) :=
 def transformSse2 (state : Sha256.Regs) (block : Bytes) : Option Sha256.Regs :=
   (sse2W block).map fun W => Sha256.addRegs state (Sha256.rounds state W)
 
-/-- consecutive `SHA256_Transform_sse2` calls over a list of blocks -/
-def absorbSse2 : Sha256.Regs → List Bytes → Option Sha256.Regs
-  | s, [] => some s
-  | s, b :: rest =>
-    match transformSse2 s b with
-    | some s' => absorbSse2 s' rest
-    | none => none
-
 /-! ## 5. SHA-NI: `sha256_shani.c`
 
 Intel SDM vol. 2B, `SHA256RNDS2`, `SHA256MSG1`, `SHA256MSG2` (the SDM's `Ch`, `Maj`, `Σ₀`, `Σ₁`, `σ₀`,
